@@ -824,6 +824,9 @@ def h_direct(e, typ, follow):
         c = e.char('t', 33, 122)
         e.assume(api.or_(e.between(c, 97, 122), e.one_of(c, '!1')))
         lit = [c]
+    elif typ == 'XTok':
+        c1, c2 = e.char('t1', 97, 122), e.char('t2', 97, 122)
+        lit = ['{', c1, c2, '}']                    # a braced group of several tokens
     elif typ == 'cs':
         c = e.char('t', 97, 122)
         lit = ['\\', 'q', c]
@@ -854,6 +857,8 @@ def h_direct(e, typ, follow):
         e.check(getattr(got, 'shrink', None) is None, 'Glue argument: shrink', 'bind-glue')
     elif typ == 'Tok':
         e.check(got is not None and eq(api.text_of(got), lit[0]), 'Tok argument is the next token', 'bind-tok')
+    elif typ == 'XTok':
+        e.check(got is not None and eq(_squeeze(_textof(got)), api.cat([lit[1], lit[2]])), 'XTok argument holding a group of two tokens', 'bind-tok')
     elif typ == 'cs':
         e.check(got is not None and eq(api.text_of(got), api.cat(['q', lit[2]])), 'cs argument is the name of the control sequence', 'bind-cs')
     a1 = a.get('a1')
@@ -1074,8 +1079,8 @@ def jobs(tier, seed):
                 for present in itertools.product(*pres_opts):
                     J.append(dict(harness='h_sig', params=dict(kinds=list(kinds), types=list(types), present=list(present), ncontent=2 if (q or n == 3) else 3),
                                   label='sig %s %s %s' % (' '.join(kinds), types, present), no_twin=True))
-    for typ in ('Number', 'Dimen', 'Glue', 'Tok', 'cs'):
-        for f in (('', ' ') if typ not in ('Tok',) else ('',)):
+    for typ in ('Number', 'Dimen', 'Glue', 'Tok', 'XTok', 'cs'):
+        for f in (('', ' ') if typ not in ('Tok', 'XTok') else ('',)):
             J.append(dict(harness='h_direct', params=dict(typ=typ, follow=f), label='direct type %s %r' % (typ, f), no_twin=True))
     for kind in ('[o]', 'm', '(o)'):
         J.append(dict(harness='h_nest', params=dict(kind=kind, n=5 if q else 6), label='nesting %s' % kind, split=4, no_twin=True))
